@@ -44,18 +44,22 @@ func callName(f, variant int) string {
 
 // Recorder collects the callback history of one operation of one task.
 type Recorder struct {
-	Calls  []CallRec
-	Count  [nFuncs]int
-	Faults [nFuncs]uint64 // bit i set: i-th call of that function fails
-	Nested int            // nested library calls made
-	Bad    string         // first anomaly seen inside a callback
+	Calls    []CallRec
+	Count    [nFuncs]int
+	Faults   [nFuncs]uint64 // bit i set: i-th call of that function fails
+	Panics   [nFuncs]uint64 // bit i set: i-th call of that function panics (the caller recovers)
+	Nested   int            // nested library calls made
+	Panicked int            // planned panics raised
+	Bad      string         // first anomaly seen inside a callback
 }
 
 func (r *Recorder) reset(f [nFuncs]uint64) {
 	r.Calls = r.Calls[:0]
 	r.Count = [nFuncs]int{}
 	r.Faults = f
+	r.Panics = [nFuncs]uint64{}
 	r.Nested = 0
+	r.Panicked = 0
 	r.Bad = ""
 }
 
@@ -85,6 +89,11 @@ func recSlot() int {
 	}
 	return c
 }
+
+// plannedPanic is what a user function panics with when the fault plan says so.
+type plannedPanic struct{ fn string }
+
+func (p plannedPanic) String() string { return "planned panic of " + p.fn }
 
 type errPlanned struct{ fn string }
 
@@ -142,6 +151,10 @@ func record(f, variant int, arg interface{}) (*Recorder, bool) {
 	r.Count[f]++
 	fail := i < 64 && r.Faults[f]&(1<<uint(i)) != 0
 	r.Calls = append(r.Calls, CallRec{Func: f, Variant: variant, Arg: canon(arg), Fail: fail})
+	if i < 64 && r.Panics[f]&(1<<uint(i)) != 0 {
+		r.Panicked++
+		panic(plannedPanic{funcNames[f]})
+	}
 	return r, fail
 }
 
